@@ -45,7 +45,7 @@ func specC02(l *Loaded, tier string, seed int64) (*Spec, error) {
 	add := func(op string, pats [][]string, extra map[string]string) {
 		for _, rat := range []string{"0", "1"} {
 			for _, p := range pats {
-				params := map[string]string{"op": op, "regs": strings.Join(p, ","), "rat": rat, "nolabel": "0"}
+				params := map[string]string{"op": op, "regs": strings.Join(p, ","), "rat": rat, "nolabel": "0", "via": "struct"}
 				key := fmt.Sprintf("%s|%s|rat%s", op, strings.Join(p, "."), rat)
 				for k, v := range extra {
 					params[k] = v
@@ -83,6 +83,7 @@ func specC02(l *Loaded, tier string, seed int64) (*Spec, error) {
 			add(op, [][]string{{}}, map[string]string{"nolabel": "1"})
 		}
 	}
+	jobs = append(jobs, c02ParseJobs("parse")...)
 	return &Spec{Jobs: jobs,
 		Rule: "one job per (mnemonic, register-name pattern over {zero,ra,t0,t1,t2}, rename-table on/off); inside a job the four register values, the immediate/offset, pc, the branch target and the loaded bytes are SMT variables, the real op.Run/ReadRegisters/WriteRegisters/MemoryRead/MemoryWrite are executed symbolically and compared with the RV32IM definition written in the harness",
 		Bounds: map[string]interface{}{"mnemonics": 45, "register_names": c02names, "patterns": map[string]interface{}{"quick": "canonical alias patterns (distinct, rd==rs1, rd==rs2, rs1==rs2, all equal, each operand zero, ra)", "thorough": "all 5^k name tuples"}[tier],
@@ -91,4 +92,36 @@ func specC02(l *Loaded, tier string, seed int64) (*Spec, error) {
 			"division by zero must be reported as an error value (the reading C07 gives), both for div and rem", "jalr target is rs+imm (bit 0 not cleared: the simulator has no misaligned-pc notion; not demanded)"},
 		Outside: []string{"register names other than zero, ra, t0, t1, t2", "forwarded operands and non-zero sequence ids (C04, C15)", "debug=true"},
 	}, nil
+}
+
+// c02ParseJobs: the same harness with the op obtained from risc.Parse on the
+// assembly text (decoding of operands, immediates, and pc accounting).
+func c02ParseJobs(prefix string) []*Job {
+	var jobs []*Job
+	add := func(op string, regs []string) {
+		jobs = append(jobs, &Job{Pkg: "risc", Fn: "VerifC02", Key: prefix + "|" + op + "|" + strings.Join(regs, "."),
+			Params: map[string]string{"op": op, "regs": strings.Join(regs, ","), "rat": "0", "nolabel": "0", "via": "parse"}, Covers: []string{"end"}, MaxPaths: 256, MaxConc: 8})
+	}
+	for _, op := range c02R3 {
+		add(op, []string{"t2", "t0", "t1"})
+		add(op, []string{"ra", "t1", "zero"})
+	}
+	for _, op := range c02I {
+		add(op, []string{"t2", "t0"})
+		add(op, []string{"t1", "ra"})
+	}
+	for _, op := range c02U {
+		add(op, []string{"t2"})
+	}
+	for _, op := range c02B2 {
+		add(op, []string{"t0", "t1"})
+		add(op, []string{"t2", "zero"})
+	}
+	for _, op := range c02B1 {
+		add(op, []string{"t0"})
+	}
+	for _, op := range c02None {
+		add(op, nil)
+	}
+	return jobs
 }
